@@ -56,7 +56,8 @@ def plan(tier, seed):
         rule=RULE,
         require=['big_histories', 'huge_histories', 'binary_results', 'ite_results', 'function_op_results',
                  'history_results', 'steps', 'cache_entries_checked',
-                 'dynamic_histories'],
+                 'dynamic_histories', 'refused_for_lack_of_room',
+                 'computed_with_little_room'],
         assumptions=[
             'truth-table model in vf/oracle.py (independent of dd)',
             'operands are held (incref / live Function) during the call',
@@ -382,7 +383,8 @@ def _random_history(ctx, spec, rng, names, kind, reg, dynamic):
               reordering=dynamic)
     menu = dict(build=5, apply=14, apply_quant=2, ite=8, drop=5, gc=3,
                 swap=3 if kind == 'bdd' else 0, sift=1, reorder_to=1,
-                dup=1, clone=2 if kind == 'bdd' else 0, **{'not': 2})
+                dup=1, clone=2 if kind == 'bdd' else 0, tight=3,
+                **{'not': 2})
     if dynamic:
         menu.update(rearm=3, clone=0, fop=6 if kind == 'autoref' else 0)
     for k in range(spec['steps']):
